@@ -395,6 +395,9 @@ type vfExchange struct {
 	// EagerReply: the peer's next frames are read (by what would be the read loop of the HTTP/2 stack) while the Write
 	// call that carried the frames they answer has not returned yet
 	EagerReply bool `json:"eagerReply"`
+	// PeerCloses: after the last frame the peer closes the connection (the next Read returns EOF) before this side
+	// calls Close itself
+	PeerCloses bool `json:"peerCloses"`
 }
 
 type vfAbsFrame struct {
@@ -720,6 +723,10 @@ func vfBuildFrames(ex vfExchange) ([]vfWireFrame, map[int]uint32) {
 // vfBeforeClose, when set, runs after the last frame of an exchange and before the connection is closed.
 var vfBeforeClose func()
 
+// vfPauseBeforeFrame, when set, says how long the conversation pauses before the frame with the given description
+// ("headers(s1,dir0,..." etc.) goes over the wire.
+var vfPauseBeforeFrame func(desc string) time.Duration
+
 func vfRunExchange(ex vfExchange, cuts [2][]int) ([]Trace, error) {
 	frames, _ := vfBuildFrames(ex)
 	coll := &vfCollector{}
@@ -779,19 +786,27 @@ func vfRunExchange(ex vfExchange, cuts [2][]int) ([]Trace, error) {
 	type run struct {
 		dir   int
 		bytes []byte
+		pause time.Duration
 	}
-	runs := []run{{0, append([]byte{}, clientPreface...)}}
+	runs := []run{{dir: 0, bytes: append([]byte{}, clientPreface...)}}
 	for _, f := range frames {
-		if f.Dir != runs[len(runs)-1].dir {
-			runs = append(runs, run{dir: f.Dir})
+		var pause time.Duration
+		if vfPauseBeforeFrame != nil {
+			pause = vfPauseBeforeFrame(f.Desc)
+		}
+		if f.Dir != runs[len(runs)-1].dir || pause > 0 {
+			runs = append(runs, run{dir: f.Dir, pause: pause})
 		}
 		runs[len(runs)-1].bytes = append(runs[len(runs)-1].bytes, f.Bytes...)
 	}
 	var eagerErr error
 	for i := 0; i < len(runs); i++ {
 		r := runs[i]
+		if r.pause > 0 {
+			time.Sleep(r.pause)
+		}
 		pending[r.dir] = append(pending[r.dir], r.bytes...)
-		if ex.EagerReply && r.dir != readDir && i+1 < len(runs) {
+		if ex.EagerReply && r.dir != readDir && i+1 < len(runs) && runs[i+1].pause == 0 && runs[i+1].dir == readDir {
 			next := runs[i+1]
 			i++ // consumed inside the last Write call of this run
 			eager = func() {
@@ -808,6 +823,12 @@ func vfRunExchange(ex vfExchange, cuts [2][]int) ([]Trace, error) {
 	}
 	if vfBeforeClose != nil {
 		vfBeforeClose()
+	}
+	if ex.PeerCloses {
+		inner.readSteps = append(inner.readSteps, vfConnStep{N: 0, Err: "eof"})
+		if n, err := conn.Read(make([]byte, 16)); n != 0 || err != io.EOF {
+			return nil, verifkit.Violf("conn-not-transparent", "Read at the peer's close returned (%d, %v), want (0, EOF)", n, err)
+		}
 	}
 	_ = conn.Close()
 	var all []byte
@@ -1040,7 +1061,7 @@ func vfC15Check(ex vfExchange) error {
 					return verifkit.Violf("h2-last-event", "stream %d was cut by GOAWAY (%s) but the trace ends with %v", so.stream, wantErr, last)
 				}
 			case "open":
-				if !strings.Contains(last.Err, "socket closed") {
+				if !strings.Contains(last.Err, "socket closed") && !(ex.PeerCloses && strings.Contains(last.Err, "EOF")) {
 					return verifkit.Violf("h2-last-event", "stream %d was open when the connection closed but the trace ends with %v", so.stream, last)
 				}
 			}
@@ -1212,6 +1233,7 @@ func vfGenExchange(t *rapid.T) vfExchange {
 		}
 	}
 	ex.EagerReply = rapid.IntRange(0, 3).Draw(t, "eagerReply") == 0
+	ex.PeerCloses = rapid.IntRange(0, 3).Draw(t, "peerCloses") == 0
 	if rapid.IntRange(0, 2).Draw(t, "timeoutReads") == 0 {
 		for i, k := 0, rapid.IntRange(1, 6).Draw(t, "ntimeouts"); i < k; i++ {
 			ex.TimeoutReads = append(ex.TimeoutReads, rapid.IntRange(0, 15).Draw(t, "timeoutRead"))
